@@ -333,6 +333,7 @@ func corpusPgJSON() []*modSpec {
 		mk("json-unions", unions),
 		mk("json-shared-shapes", "package models\n\ntype Meta map[string]int\n\ntype Address struct {\n\tStreet string\n\tTags []string\n}\n\ntype Article struct {\n\tId int64\n\tMeta Meta\n\tBilling Address\n\tShipping Address\n}\n\ntype Comment struct {\n\tId int64\n\tMeta Meta\n\tFrom Address\n}\n"),
 		withClass(mk("json-gomacro-ignored-on-the-wire", "package models\n\ntype Account struct {\n\tLogin string `json:\"login\"`\n\tCache []int `gomacro:\"ignore\"`\n\tNotes map[string]string `json:\"notes\" gomacro:\"ignore\"`\n}\n\ntype IdUser int64\n\ntype User struct {\n\tId IdUser\n\tA Account\n}\n"), "gomacro-ignored-field-on-the-wire"),
+		mk("json-option-only-tags", "package models\n\ntype Article struct {\n\tTitle string `json:\"title\"`\n\tNote string `json:\",omitempty\"`\n\tTags []string `json:\",omitempty\"`\n\tPlain int\n}\n\ntype IdPost int64\n\ntype Post struct {\n\tId IdPost\n\tA Article\n}\n"),
 		withClass(mk("json-bytes", "package models\n\ntype Blob struct {\n\tName string\n\tData []byte\n}\n\ntype IdDoc int64\n\ntype Doc struct {\n\tId IdDoc\n\tB Blob\n}\n"), "byte-slice-in-json"),
 		withClass(mk("json-named-time", "package models\n\nimport \"time\"\n\ntype Date time.Time\n\ntype Span struct {\n\tFrom Date\n\tNote string\n}\n\ntype IdEvent int64\n\ntype Event struct {\n\tId IdEvent\n\tS Span\n}\n"), "named-time-type-without-json-methods"),
 		withClass(mk("json-name-collision", "package models\n\nimport \"example.com/org/models/modelsext\"\n\ntype Info struct {\n\tName string\n}\n\ntype Pair struct {\n\tA Info\n\tB modelsext.Info\n}\n\ntype IdRow int64\n\ntype Row struct {\n\tId IdRow\n\tP Pair\n}\n",
